@@ -141,6 +141,23 @@ static bool isInt(const std::string& s)
 	return true;
 }
 
+// a Date's stored double in lowest terms n / 2^k, the library's floor(t*1000+0.5) on it, splitUTC() and toUTCString(FULL)
+static std::string dblLine(const Date& d)
+{
+	ll n = 0, k = 0;
+	if (d.time() != 0) {
+		int e;
+		double f = frexp(d.time(), &e);          // time() = f * 2^e, 0.5 <= |f| < 1
+		n = (ll)ldexp(f, 53);                     // exact: a 53-bit integer
+		k = 53 - e;
+		if (k < 0) return "err exponent";
+		while (k > 0 && n % 2 == 0) { n /= 2; k--; }
+	}
+	ll r = (ll)floor(d.time() * 1000 + 0.5);
+	String F = d.toUTCString(Date::FULL);
+	return str(n) + " " + str(k) + " " + str(r) + " " + fieldsStr(d.splitUTC()) + " " + raw(F);
+}
+
 static std::string step(const Toks& t)
 {
 	const std::string& op = t[0];
@@ -233,20 +250,24 @@ static std::string step(const Toks& t)
 		// and what splitUTC / toUTCString(FULL) show through it
 		ll ms = num(t[1]);
 		if (ms < MS_MIN || ms > MS_MAX) return "range";
-		double tt = (double)ms / 1000.0;
-		Date d(tt);
-		ll n = 0, k = 0;
-		if (d.time() != 0) {
-			int e;
-			double f = frexp(d.time(), &e);          // time() = f * 2^e, 0.5 <= |f| < 1
-			n = (ll)ldexp(f, 53);                     // exact: a 53-bit integer
-			k = 53 - e;
-			if (k < 0) return "err exponent";
-			while (k > 0 && n % 2 == 0) { n /= 2; k--; }
-		}
-		ll r = (ll)floor(d.time() * 1000 + 0.5);
-		String F = d.toUTCString(Date::FULL);
-		return str(n) + " " + str(k) + " " + str(r) + " " + fieldsStr(d.splitUTC()) + " " + raw(F);
+		return dblLine(Date((double)ms / 1000.0));
+	}
+	if (op == "addsec" && t.size() == 3 && isInt(t[1]) && isInt(t[2])) {
+		// Date::operator+(double) (s >= 0) / operator-(double) (s < 0) with a whole number of seconds
+		ll ms = num(t[1]), sec = num(t[2]);
+		if (ms < MS_MIN || ms > MS_MAX) return "range";
+		if (sec > 400000000000LL || sec < -400000000000LL) return "range";
+		ll r = ms + 1000 * sec;
+		if (r < MS_MIN || r > MS_MAX) return "range";
+		Date d((double)ms / 1000.0);
+		Date e = sec >= 0 ? d + (double)sec : d - (double)(-sec);
+		return dblLine(e);
+	}
+	if (op == "cmp" && t.size() == 3 && isInt(t[1]) && isInt(t[2])) {
+		ll m1 = num(t[1]), m2 = num(t[2]);
+		if (m1 < MS_MIN || m1 > MS_MAX || m2 < MS_MIN || m2 > MS_MAX) return "range";
+		Date a((double)m1 / 1000.0), b((double)m2 / 1000.0);
+		return std::string("lt=") + (a < b ? "1" : "0") + " le=" + (a <= b ? "1" : "0") + " gt=" + (a > b ? "1" : "0");
 	}
 	if (op == "splitu" && t.size() == 2 && isInt(t[1])) {
 		ll us = num(t[1]);
